@@ -151,7 +151,7 @@ func c02Operands(c *Ctx, raw string) {
 				}
 			case strings.Contains(body, "lpm.HasPrefix(targetBin)"):
 				// which probe per type is decided by the inner switch
-			case strings.Contains(conds, core.NormPat("(domainMatchBitmap["+rngKey+"/32]>>("+rngKey+"%32))&1>0")):
+			case strings.Contains(conds, core.NormPat("(domainMatchBitmap["+rngKey+"/32]>>("+rngKey+"%32))&1>0")) || domainBitByKey(f, cc, rngKey):
 				gside[typ] = "bit (index%32) of word (index/32) of the daddr entry"
 			case strings.Contains(body, "goodSubrule = true") && conds == "":
 				gside[typ] = "always"
@@ -350,4 +350,36 @@ func c02Ring(c *Ctx) {
 			return -1
 		}(), maxSet)
 	}
+}
+
+
+// domainBitByKey: the clause tests bit (key%32) of word domainMatchBitmap[key/32], where the word index and the
+// shift amount may be named by single-definition locals.
+func domainBitByKey(f *core.Func, cc *ast.CaseClause, key string) bool {
+	info := f.Info()
+	idxOK, shiftOK := false, false
+	isKeyOp := func(e ast.Expr, op token.Token) bool {
+		be, ok := ast.Unparen(throughSingleDef(info, f.Body, e)).(*ast.BinaryExpr)
+		if !ok || be.Op != op {
+			return false
+		}
+		tv, has := info.Types[be.Y]
+		return core.ExprStr(be.X) == key && has && tv.Value != nil && tv.Value.String() == "32"
+	}
+	for _, st := range cc.Body {
+		ast.Inspect(st, func(k ast.Node) bool {
+			switch x := k.(type) {
+			case *ast.IndexExpr:
+				if core.ExprStr(x.X) == "domainMatchBitmap" && isKeyOp(x.Index, token.QUO) {
+					idxOK = true
+				}
+			case *ast.BinaryExpr:
+				if x.Op == token.SHR && isKeyOp(x.Y, token.REM) {
+					shiftOK = true
+				}
+			}
+			return true
+		})
+	}
+	return idxOK && shiftOK
 }
